@@ -1,0 +1,5 @@
+//go:build !verif
+
+package sweeper
+
+func verifSliceYield(dbiName string) {}
